@@ -117,38 +117,39 @@ def lookupFrame (fr : List (Key × FrameM)) (k : Key) : Option FrameM :=
 def rescaleOK (w h lw lh : Nat) : Bool :=
   (w == lw || 2 * w == lw) && (h == lh || 2 * h == lh)
 
-/-- `compute_mipmaps()` for one `(frame, depth|side)`: the final data of levels `0 .. mc-1`. -/
-def mipChain (fr : List (Key × FrameM)) (f d : Nat) : Nat → Except Err (List FrameM)
+/-- `compute_mipmaps(filter)` for one `(frame, depth|side)`: the final data of levels `0 .. n-1`. -/
+def mipChain (fr : List (Key × FrameM)) (filt f d : Nat) : Nat → Except Err (List FrameM)
   | 0 => pure []
   | 1 => do
     let some f0 := lookupFrame fr (f, d, 0) | throw .key
     pure [{ f0 with data := some (f0.data.getD (blank f0.w f0.h)) }]
   | m + 2 => do
-    let prev ← mipChain fr f d (m + 1)
+    let prev ← mipChain fr filt f d (m + 1)
     let some p := prev.getLast? | throw .key
     let some cur := lookupFrame fr (f, d, m + 1) | throw .key
     match cur.data with
     | some _ => pure (prev ++ [cur])
     | none =>
       if !rescaleOK cur.w cur.h p.w p.h then throw .rescale
-      let some out := scaleDown 4 p.w p.h cur.w cur.h (p.data.getD []) | throw .rescale
+      let some out := scaleDown filt p.w p.h cur.w cur.h (p.data.getD []) | throw .rescale
       pure (prev ++ [{ cur with data := some out }])
 
-/-- All frames after `compute_mipmaps()`: for every `(f, d)` of the object's own range, levels
+/-- All frames after `compute_mipmaps(filter)`: for every `(f, d)` of the object's own range, levels
 `0..mc-1` are replaced by the chain; other entries are unchanged. -/
-def computeMips (v : Vtf) : Except Err (List (Key × FrameM)) := do
+def computeMips (v : Vtf) (filt : Nat) : Except Err (List (Key × FrameM)) := do
   let dseq := depthSeq v.flags v.verMinor v.depth
   let mut out : List (Key × FrameM) := []
   for f in List.range v.frameCount do
     for d in dseq do
-      let ch ← mipChain v.frames f d (max v.mipCount 1)
+      let ch ← mipChain v.frames filt f d (max v.mipCount 1)
       out := out ++ (ch.zipIdx.map fun (fm, m) => ((f, d, m), fm))
   -- entries not covered keep their state
   let rest := v.frames.filter fun p => !(out.any fun q => q.1 == p.1)
   pure (out ++ rest)
 
-/-- The thumbnail after `compute_mipmaps()` and `_low_res.load()`. -/
-def computeLow (v : Vtf) (frames : List (Key × FrameM)) : Except Err FrameM := do
+/-- The thumbnail after `compute_mipmaps(filter)`: regenerated from the level that is twice its size
+(always, even when it held data); untouched when there is no such level. -/
+def computeLow (v : Vtf) (frames : List (Key × FrameM)) (filt : Nat) : Except Err FrameM := do
   let mut low := v.low
   if v.lowFmt ≠ fmtNone then
     let side := if v.flags &&& envmapFlag ≠ 0 then 3 else 0
@@ -158,10 +159,28 @@ def computeLow (v : Vtf) (frames : List (Key × FrameM)) : Except Err FrameM := 
         if !rescaleOK low.w low.h fr.w fr.h then throw .rescale
         match fr.data with
         | some d =>
-          let some out := scaleDown 4 fr.w fr.h low.w low.h d | throw .rescale
+          let some out := scaleDown filt fr.w fr.h low.w low.h d | throw .rescale
           low := { low with data := some out }
         | none => low := { low with data := some (low.data.getD (blank low.w low.h)) }
-  pure { low with data := some (low.data.getD (blank low.w low.h)) }
+  pure low
+
+/-- `VTF.compute_mipmaps(filter)` as a state change. -/
+def applyCompute (v : Vtf) (filt : Nat) : Except Err Vtf := do
+  let frames ← computeMips v filt
+  let low ← computeLow v frames filt
+  pure { v with frames, low }
+
+/-- `VTF.clear_mipmaps(after=k)`: every level above `k` and the thumbnail are cleared. -/
+def applyClear (v : Vtf) (after : Nat) : Vtf :=
+  { v with frames := v.frames.map fun (k, fr) => if k.2.2 > after then (k, { fr with data := none }) else (k, fr),
+           low := { v.low with data := none } }
+
+/-- operations applied to the object before saving: `(0, k)` = `clear_mipmaps(after=k)`,
+`(1, f)` = `compute_mipmaps(FilterMode(f))`. -/
+def applyOps (v : Vtf) : List (Nat × Nat) → Except Err Vtf
+  | [] => pure v
+  | (0, k) :: ops => applyOps (applyClear v k) ops
+  | (_, f) :: ops => do applyOps (← applyCompute v f) ops
 
 /-- `_format_funcs.save(fmt, frame._data, bytearray(frame_size), w, h)`. -/
 def encodeFrame (fmt : Nat) (fr : FrameM) : Except Err (List Nat) := do
@@ -211,8 +230,9 @@ def saveFile (v : Vtf) (minor sheetVer : Nat) (asw : Bool) : Except Err (List Na
     blocks := blocks ++ le 4 sheetBytes.length ++ sheetBytes
     off := off + 4 + sheetBytes.length
   -- images
-  let frames ← computeMips v
-  let low ← computeLow v frames
+  let v ← applyCompute v 4      -- `self.compute_mipmaps()` with the default (bilinear) filter
+  let frames := v.frames
+  let low : FrameM := { v.low with data := some (v.low.data.getD (blank v.low.w v.low.h)) }  -- `_low_res.load()`
   let lowOff := off
   let lowBytes ← (if v.lowFmt ≠ fmtNone then encodeFrame v.lowFmt low else pure [])
   let highOff := lowOff + lowBytes.length
@@ -266,6 +286,8 @@ structure View where
   sheet : List SheetSeq
   lowOff : Option Nat
   frames : List (Key × Nat × Nat × Nat)
+  /-- RGBA16161616(F): only metadata is read, frames have no file position. -/
+  headerOnly : Bool
 deriving Repr
 
 def slice (bs : Array Nat) (off n : Nat) : Except Err (List Nat) :=
@@ -369,14 +391,14 @@ def readFile (l : List Nat) : Except Err View := do
     lowOff := some headerSize
     highOff := some (headerSize + frameSize (fmtOf lowFmt) lowW lowH)
   let some high := highOff | throw .noHigh
-  let headerOnly := fmt = 24 ∨ fmt = 25
+  let headerOnly : Bool := fmt = 24 ∨ fmt = 25
   if lowFmt ≠ fmtNone ∧ !headerOnly ∧ lowOff.isNone then throw .noLow
   let dseq := depthSeq flags minor depth
   let frames := layoutFrom (frameSize (fmtOf fmt)) (readerDims width height)
     (fileKeys mipCount frameCount dseq) high
   pure { verMinor := minor, headerSize, width, height, flags, frameCount, firstFrame, refl, bump,
          fmt, mipCount, lowFmt, lowW, lowH, depth, res, sheet,
-         lowOff := if lowFmt ≠ fmtNone then lowOff else none, frames }
+         lowOff := if lowFmt ≠ fmtNone then lowOff else none, frames, headerOnly }
 
 /-- `Frame.load()` of a lazily read frame: decode `frame_size` bytes at `off`. -/
 def decodeAt (bs : Array Nat) (fmt w h off : Nat) : Except Err (List Nat) := do
